@@ -36,7 +36,7 @@ func (m c19) Run(ctx *core.Ctx) {
 	if ctx.Tier == "thorough" {
 		L = 5
 	}
-	runStateWorkload(ctx, m.Exec, histKinds{setters: true, resolve: true, clone: true}, tierN(ctx.Tier, 400_000, 8_000_000), tierN(ctx.Tier, 400_000, 10_000_000), L)
+	runStateWorkload(ctx, m.Exec, histKinds{setters: true, resolve: true, clone: true}, tierN(ctx.Tier, 400_000, 25_000_000), tierN(ctx.Tier, 400_000, 25_000_000), L)
 }
 
 func isDottedDecimal(h string) bool {
